@@ -644,7 +644,7 @@ impl Engine for Math {
             "C14" => format!("cases = log2/ln over {}; x log-uniform, powers of two +-ulps, near 1, smallest invertible. Oracle: 320-bit log2/ln (atanh series; self-tested against embedded 60-digit constants and identities): |r - log2 x| <= 8 ulp, exact on powers of two, sign rule, |r - ln x| <= 2^-23 |ln x| + 8 ulp; Err only for x <= 0 or unrepresentable reciprocal. Non-trivial: x != 1.", types),
             "C15" => format!("cases = exp/pow/powi over {}; exp operands uniform in x and in e^x up to the overflow threshold; pow bases log-uniform with exponents within the threshold, small integers and halves; powi as in C12. Oracle: 320-bit exp and exp(y ln x); exact rational X^n (big integers) or 320-bit for powi; bounds as stated in the property; n < 0 metamorphic: powi(x,n) == 1.checked_div(powi(x,|n|)); conventions 0^y=0, x^0=1, x^1=x exact. Non-trivial: Ok result other than the conventions.", types),
             "C16" => "cases = sin/cos/tan over the 131 same-type signed pairs (every signed layout of the scope); angles uniform in |x| <= 200 (tan 100), multiples of pi/4 +- ulps, tiny angles, near the limit; I9F23 angles enumerated (every pattern in the thorough tier, every 1024th in quick). Oracle: f64 libm on the operand rounded to f64 (|x| <= 200 => argument error <= 2^-45, libm <= 1 ulp) with 2^-44 (times 1+t^2 for tan) added to every bound; targeted search: hill climbing on error/bound from the best-scoring generated angles: |sin - s|, |cos - c| <= 2^-16, range [-1-2^-16, 1+2^-16], |tan - t| <= 2^-14 (1+t^2) where |t| <= 64 (2^-30 guard band, cases inside skipped). Non-trivial: |x| > 2 or within 2^-10 of a quadrant boundary.".into(),
-            "C17" => format!("cases = every function except powi over {}, operands weighted to the largest and smallest magnitudes; oracle: hook loop counter with hard limit 4*width+64 (the marker panic is the violation, so an unbounded loop costs 4*width+65 iterations to detect). Non-trivial: operand magnitude >= 2^8 or <= 2^-8.", types),
+            "C17" => format!("cases = every function except powi over {}, operands weighted to the largest and smallest magnitudes; oracle: hook loop counter with hard limit 4*width+64 (the marker panic is the violation, so an unbounded loop costs 4*width+65 iterations to detect); targeted search: hill climbing on the iteration count from the generated operands with the highest counts. Non-trivial: operand magnitude >= 2^8 or <= 2^-8.", types),
             _ => String::new(),
         }
     }
@@ -729,6 +729,8 @@ impl Engine for Math {
                 ev.class("magnitude<=2^-8");
             }
             ev.nontrivial = mag_bits >= 9 || (mag_bits <= -8 && !xs.is_zero());
+            // targeted search climbs on the iteration count itself
+            ev.score = iters as f64 / c17_limit(dl) as f64;
             if hit_limit || iters > c17_limit(dl) {
                 fail(&mut ev, "iters", &Out::V(iters as u128), format!("at most 4*{}+64 = {} loop iterations", dl.w, c17_limit(dl)));
             }
@@ -1163,6 +1165,8 @@ impl Engine for Math {
             ("C14", Tier::Thorough) => (600_000, 1_000),
             ("C15", Tier::Quick) => (15_000, 32),
             ("C15", Tier::Thorough) => (600_000, 1_000),
+            ("C17", Tier::Quick) => (60_000, 64),
+            ("C17", Tier::Thorough) => (3_000_000, 3_000),
             ("C16", Tier::Quick) => (80_000, 96),
             ("C16", Tier::Thorough) => (4_000_000, 4_000),
             _ => (0, 0),
